@@ -17,6 +17,8 @@ CONSTANTS GroupFacts,      \* set of <<name, tags (set), summary, before, after>
           ListedBeforeInit, ListedAfterInit,   \* names GetCheckersInfo lists before / after InitEmbeddedRules (process without the analyzer)
           GroupNames,      \* names of the rule groups of rules.go
           CliDefaultNames, \* the default -enable list of the built go-critic binary
+          ReferenceBehaviour, \* set of <<name, digest>>: what the rule-group checker constructed alone says about the example files of all groups
+          InstanceBehaviour,  \* the same for every instance constructed while other goroutines construct rule-group checkers too
           DegradedListings, \* listings printed by `doc` runs that exited 0 in an environment where the embedded rules cannot load
           ShippedIR, CompiledIR, ShippedDocs, RenderedDocs   \* digests
 VARIABLE x
@@ -33,4 +35,6 @@ MarksAgree == DefaultMarked = DocDefaultNames /\ DefaultMarked = CliDefaultNames
 ListingFollowsRegistration == ListedAfterInit = ListedBeforeInit \cup GroupNames /\ ListedBeforeInit \cap GroupNames = {}
 \* a listing that succeeds is the whole registry (a binary that cannot load its rule groups must fail, not list a part)
 ListingAllOrNothing == \A l \in DegradedListings : l = RegistryNames
+\* a checker named after a group runs that group's rules (and only those) however its construction was scheduled
+CheckerRunsItsGroup == InstanceBehaviour \subseteq ReferenceBehaviour
 =============================================================================
